@@ -159,7 +159,13 @@ func orderInsensitive(info *types.Info, f *ScopeFunc, body *ast.BlockStmt, loop 
 					switch lv := l.(type) {
 					case *ast.IndexExpr:
 						if _, isMap := info.TypeOf(lv.X).Underlying().(*types.Map); isMap {
-							continue // store into a map/set
+							// a store into a map or set leaks no order — unless two iterations can write
+							// different values under the same key (the last one wins): safe when the key is
+							// the iteration's own key, or the stored value does not depend on the iteration
+							if mapStoreCollides(info, loop, lv, x, i, local) {
+								bad = "map store " + core.ExprStr(l) + " = … under a key that is not the iteration's own: when two elements yield the same key the last one iterated wins"
+							}
+							continue
 						}
 						bad = "indexed store " + core.ExprStr(l)
 					case *ast.Ident, *ast.SelectorExpr:
@@ -622,4 +628,66 @@ func containsReturn(n ast.Node) bool {
 		return !found
 	})
 	return found
+}
+
+// mapStoreCollides: inside an unordered iteration, `m[k] = v` with k not the
+// iteration's own key (range key variable, or first callback parameter) and v
+// depending on the iteration (it mentions a per-iteration variable and is not
+// a constant).
+func mapStoreCollides(info *types.Info, loop ast.Node, lv *ast.IndexExpr, as *ast.AssignStmt, i int, local map[types.Object]bool) bool {
+	if len(as.Rhs) != len(as.Lhs) {
+		return false
+	}
+	v := as.Rhs[i]
+	if tv, ok := info.Types[v]; ok && tv.Value != nil {
+		return false // constant: a set insert
+	}
+	if id, ok := core.Unparen(v).(*ast.Ident); ok && (id.Name == "true" || id.Name == "false" || id.Name == "nil") {
+		return false
+	}
+	if cl, ok := core.Unparen(v).(*ast.CompositeLit); ok && len(cl.Elts) == 0 {
+		return false // struct{}{}
+	}
+	// the iteration's own key and value variables
+	var iterKey types.Object
+	iterVars := map[types.Object]bool{}
+	switch l := loop.(type) {
+	case *ast.RangeStmt:
+		if id, ok := l.Key.(*ast.Ident); ok {
+			iterKey = info.Defs[id]
+			iterVars[info.Defs[id]] = true
+		}
+		if id, ok := l.Value.(*ast.Ident); ok {
+			iterVars[info.Defs[id]] = true
+		}
+	case *ast.CallExpr:
+		for _, a := range l.Args {
+			if fl, ok := a.(*ast.FuncLit); ok && fl.Type.Params != nil {
+				first := true
+				for _, f := range fl.Type.Params.List {
+					for _, nm := range f.Names {
+						if first {
+							iterKey = info.Defs[nm]
+							first = false
+						}
+						iterVars[info.Defs[nm]] = true
+					}
+				}
+			}
+		}
+	}
+	if id, ok := core.Unparen(lv.Index).(*ast.Ident); ok && iterKey != nil && info.Uses[id] == iterKey {
+		return false // keyed by the iteration's own key: distinct per element
+	}
+	// does the value depend on the iteration?
+	dep := false
+	ast.Inspect(v, func(n ast.Node) bool {
+		if id, ok := n.(*ast.Ident); ok {
+			if o := info.Uses[id]; o != nil && (iterVars[o] || local[o]) {
+				dep = true
+			}
+		}
+		return !dep
+	})
+	return dep
 }
